@@ -204,7 +204,7 @@ func runHeap(c *Ctx) {
 	var visited ssa.Value
 	vField := ""
 	core.Instrs(dj, func(in ssa.Instruction) {
-		if mu, ok := in.(*ssa.MapUpdate); ok && in.Block() == pop.Block() && core.InstrIndex(in) > core.InstrIndex(pop) {
+		if mu, ok := in.(*ssa.MapUpdate); ok && core.SetInsert(mu) && in.Block() == pop.Block() && core.InstrIndex(in) > core.InstrIndex(pop) {
 			if fr, ok := core.AsFieldLoad(mu.Key); ok && core.Path(fr.Base) == uPath {
 				visited, vField = mu.Map, fr.Field
 			}
@@ -352,8 +352,8 @@ func runHeap(c *Ctx) {
 					cmpOK = true
 				}
 			}
-			if l.Kind == "ok" && !l.Pol && visited != nil {
-				if lk, ok := l.Of.(*ssa.Lookup); ok && up(lk.X) == visited && core.Path(lk.Index) == weightKeyPath {
+			if lk, in, ok := core.MemberLit(l); ok && !in && visited != nil {
+				if up(lk.X) == visited && core.Path(lk.Index) == weightKeyPath {
 					visOK = true
 				}
 			}
